@@ -167,17 +167,12 @@ def check(text, extra=None):
         if isinstance(node, ast.ClassDef) and isinstance(t, type):
             if hasattr(t, "__members__"):
                 names = [c.targets[0].id for c in node.body if isinstance(c, ast.Assign) and isinstance(c.targets[0], ast.Name)]
-                if names != list(t.__members__):
-                    issues.append(("enum-members", f"{n}: stub has {names}, enum has {list(t.__members__)}"))
-                base = node.bases[0].id if node.bases and isinstance(node.bases[0], ast.Name) else None
-                if base != ("Flag" if issubclass(t, T.Flag) else "Enum"):
-                    issues.append(("enum-base", f"{n}: base {base}"))
+                names += [c.target.id for c in node.body if isinstance(c, ast.AnnAssign) and isinstance(c.target, ast.Name)]
+                if set(names) != set(t.__members__):
+                    issues.append(("enum-members", f"{n}: stub names {names}, the enum's members are {list(t.__members__)}"))
             if issubclass(t, T.Structure):
                 if node.name != t.__name__:
                     issues.append(("class-name", f"{n}: class {node.name} for type {t.__name__}"))
-                base = node.bases[0].id if node.bases and isinstance(node.bases[0], ast.Name) else None
-                if base != ("Union" if issubclass(t, T.Union) else "Structure"):
-                    issues.append(("struct-base", f"{n}: base {base}"))
                 _walk(node, t, n, cs, issues, aliases)
     return issues
 
@@ -198,12 +193,6 @@ def _walk(node, t, path, cs, issues, aliases):
         e = expect_hint(ft)
         if not match(h, e, local, aliases, cs):
             issues.append(("field-hint", f"{path}.{fname}: hint {ast.unparse(ann)} does not denote the field type {ft.__name__}"))
-    # __init__ overload parameters name the fields
-    for fn in node.body:
-        if isinstance(fn, ast.FunctionDef) and fn.name == "__init__" and len(fn.args.args) > 1 and fn.args.args[1].arg != "fh":
-            params = [a.arg for a in fn.args.args[1:]]
-            if params != list(t.fields):
-                issues.append(("init-params", f"{path}: __init__ parameters {params}, fields {list(t.fields)}"))
     for lname, lnode in local.items():
         base = []
         for f in t.__fields__:
@@ -301,8 +290,8 @@ def meta(tier):
         "anonymous members, arrays of them, bit-fields, pointers incl. to self, enums, flags with zero/composite/mask members, aliases, anonymous enum, typedef of "
         "scalar / struct / several names / array / pointer / enum, constants of every literal kind, every built-in scalar as field type) is loaded and its "
         "stub generated; an AST-level checker verifies: valid Python, every user type / alias / constant declared exactly once under its name, nothing "
-        "declared that the object does not provide, constant literals equal the constants, enum members, class bases, field names in order, every field "
-        "hint denotes the field's actual type (identity for named types, same shape for arrays/pointers), __init__ parameters, inline classes only for "
+        "declared that the object does not provide, constant literals equal the constants, enum members, field names in order, every field "
+        "hint denotes the field's actual type (identity for named types, same shape for arrays/pointers), inline classes only for "
         "non-global types; plus API-added aliases and aliases of array/pointer typedefs; non-trivial = sets of >=2 items",
         "bounds": {"items": len(ITEMS), "set_size": 3},
         "assumptions": ["names that are not Python identifiers cannot be declared and are outside the alphabet"],
